@@ -90,7 +90,8 @@ type colSpec struct {
 	gen  func(rnd *rand.Rand) string // SQL literal
 }
 
-var strAlphabet = []string{"a", "b", "c", "x", "Z", "Q", "0", "1", "7", " ", " ", ".", "_", "-", "é", "ß", "日本", "語", "😀", "ab", "NUL", "N", "ULL"}
+// "q;z", ">q": the first byte of a multi-byte line terminator / line prefix on its own, inside a value
+var strAlphabet = []string{"a", "b", "c", "x", "Z", "Q", "q;z", ">q", "0", "1", "7", " ", " ", ".", "_", "-", "é", "ß", "日本", "語", "😀", "ab", "NUL", "N", "ULL"}
 
 func genStr(max int) func(rnd *rand.Rand) string {
 	return func(rnd *rand.Rand) string {
